@@ -1016,3 +1016,120 @@ pub fn gen_many_stores(rng: &mut Rng) -> Program {
     p.threads = vec![t0, t1];
     p
 }
+
+// ------------------------------------------------------------------------------------------
+// await family (C18): one thread at a time spins with yield_now on an atomic written elsewhere
+
+/// value no thread ever stores: an await on it can never succeed
+pub const NEVER: u64 = 4095;
+
+/// "two awaited stores": two writers store different values to one cell (unordered with each
+/// other) and raise their own flags; the waiter looks at the cell around two await loops
+fn gen_await_two_stores(rng: &mut Rng) -> Program {
+    let mut vs = ValueSrc::new();
+    let pal = *rng.pick(&[Palette::RlxOnly, Palette::RelAcq, Palette::All]);
+    // a0, a1: flags; a2: the cell
+    let mut p = Program { atomics: vec![0; 3], ..Default::default() };
+    let mut w1 = vec![Op::Store { a: 2, v: vs.constant(), o: pick_store_ord(rng, pal) }];
+    let f1 = vs.constant();
+    w1.push(Op::Store { a: 0, v: f1, o: pick_store_ord(rng, pal) });
+    let mut w2 = vec![Op::Store { a: 2, v: vs.constant(), o: pick_store_ord(rng, pal) }];
+    let f2 = vs.constant();
+    w2.push(Op::Store { a: 1, v: f2, o: pick_store_ord(rng, pal) });
+    let mut waiter = Vec::new();
+    if rng.chance(1, 2) {
+        waiter.push(Op::Load { a: 2, o: pick_load_ord(rng, pal) });
+    }
+    let (fa, fb) = if rng.chance(1, 2) { ((0u8, f1), (1u8, f2)) } else { ((1u8, f2), (0u8, f1)) };
+    waiter.push(Op::Await { a: fa.0, o: pick_load_ord(rng, pal), v: fa.1 });
+    waiter.push(Op::Load { a: 2, o: pick_load_ord(rng, pal) });
+    // (yield-first loops, Op::AwaitY, are only exercised by the K9 witness: loom's yield pruning
+    // makes their result sets incomplete by design, see known_findings.txt)
+    waiter.push(Op::Await { a: fb.0, o: pick_load_ord(rng, pal), v: fb.1 });
+    waiter.push(Op::Load { a: 2, o: pick_load_ord(rng, pal) });
+    if rng.chance(4, 5) {
+        // the waiter is main
+        p.threads = vec![vec![Op::Spawn { t: 1 }, Op::Spawn { t: 2 }], w1, w2];
+        p.threads[0].extend(waiter);
+        p.threads[0].push(Op::Join { t: 1 });
+        p.threads[0].push(Op::Join { t: 2 });
+    } else {
+        p.threads = vec![vec![Op::Spawn { t: 1 }, Op::Spawn { t: 2 }, Op::Spawn { t: 3 }, Op::Join { t: 1 }, Op::Join { t: 2 }, Op::Join { t: 3 }], w1, w2, waiter];
+    }
+    p
+}
+
+pub fn gen_await(rng: &mut Rng, never: bool) -> Program {
+    if !never && rng.chance(1, 4) {
+        return gen_await_two_stores(rng);
+    }
+    let mut vs = ValueSrc::new();
+    let pal = *rng.pick(&[Palette::RlxOnly, Palette::RelAcq, Palette::RelAcq, Palette::All]);
+    let n_writers = rng.range(1, 2);
+    let nt = n_writers + 2; // main + writers + waiter (waiter may be main)
+    let n_flags = rng.range(1, 2);
+    let n_data = rng.range(0, 2);
+    let na = n_flags + n_data;
+    let mut p = Program { atomics: vec![0; na], ..Default::default() };
+    let waiter_is_main = rng.chance(1, 3);
+    let waiter = if waiter_is_main { 0 } else { nt - 1 };
+    let nthreads = if waiter_is_main { nt - 1 } else { nt };
+    p.threads = vec![Vec::new(); nthreads];
+    let mut bodies: Vec<Vec<Op>> = vec![Vec::new(); nthreads];
+    // each flag is written exactly once, by one writer, after that writer's data stores
+    let mut flag_vals = vec![0u64; n_flags];
+    for f in 0..n_flags {
+        let w = 1 + rng.below(n_writers);
+        let nd = if n_data > 0 { rng.range(0, 2) } else { 0 };
+        for _ in 0..nd {
+            let d = n_flags + rng.below(n_data);
+            bodies[w].push(Op::Store { a: d as u8, v: vs.constant(), o: pick_store_ord(rng, pal) });
+        }
+        if pal != Palette::RlxOnly && rng.chance(1, 5) {
+            bodies[w].push(Op::Fence { o: pick_fence_ord(rng, pal) });
+        }
+        let v = vs.constant();
+        flag_vals[f] = v;
+        bodies[w].push(Op::Store { a: f as u8, v, o: pick_store_ord(rng, pal) });
+        if rng.chance(1, 3) && n_data > 0 {
+            let d = n_flags + rng.below(n_data);
+            bodies[w].push(Op::Store { a: d as u8, v: vs.constant(), o: pick_store_ord(rng, pal) });
+        }
+    }
+    // the waiter: optional reads, await(s), reads afterwards
+    if rng.chance(1, 3) && n_data > 0 {
+        let d = n_flags + rng.below(n_data);
+        bodies[waiter].push(Op::Load { a: d as u8, o: pick_load_ord(rng, pal) });
+    }
+    let never_at = if never { Some(rng.below(n_flags)) } else { None };
+    for f in 0..n_flags {
+        let v = if never_at == Some(f) { NEVER } else { flag_vals[f] };
+        bodies[waiter].push(Op::Await { a: f as u8, o: pick_load_ord(rng, pal), v });
+        if pal != Palette::RlxOnly && rng.chance(1, 5) {
+            bodies[waiter].push(Op::Fence { o: pick_fence_ord(rng, pal) });
+        }
+        let nr = rng.range(0, 2);
+        for _ in 0..nr {
+            let a = if n_data > 0 && rng.chance(3, 4) { n_flags + rng.below(n_data) } else { rng.below(n_flags) };
+            bodies[waiter].push(Op::Load { a: a as u8, o: pick_load_ord(rng, pal) });
+        }
+    }
+    for t in 1..nthreads {
+        p.threads[0].push(Op::Spawn { t: t as u8 });
+    }
+    p.threads[0].extend(std::mem::take(&mut bodies[0]));
+    if !never {
+        for t in 1..nthreads {
+            p.threads[0].push(Op::Join { t: t as u8 });
+        }
+        if rng.chance(1, 2) {
+            for a in 0..na {
+                p.threads[0].push(Op::Load { a: a as u8, o: MO::Rlx });
+            }
+        }
+    }
+    for t in 1..nthreads {
+        p.threads[t] = std::mem::take(&mut bodies[t]);
+    }
+    p
+}
